@@ -1,4 +1,5 @@
 import MidnightZK.Proofs.C04.Bounds
+import MidnightZK.Model.C04.Interp
 /-! The limbs of `decompose_core`: the recomposed value is tied to the *individual limb cells*
 (each the image of a natural number below `2^size`), for every list of limb sizes and 1..4 lookup
 columns. This is what `assigned_to_le_bits / bytes / chunks` hand out. -/
@@ -86,7 +87,7 @@ theorem limbsOf_recomp : ∀ (sizes vs : List Nat), LimbVals sizes vs →
   | [], [], _ => rfl
   | sz :: ss, v :: vs, h => by
     have ih := limbsOf_recomp ss vs h.2
-    have hpos : 0 < 2 ^ sz := Nat.pos_pow (by omega)
+    have hpos : 0 < 2 ^ sz := Nat.pow_pos (by omega)
     simp only [recomp, limbsOf]
     have e1 : (v + 2 ^ sz * recomp ss vs) % 2 ^ sz = v := by
       rw [Nat.add_mul_mod_self_left]; exact Nat.mod_eq_of_lt h.1
@@ -185,15 +186,15 @@ theorem decompRows_gates (asg : Cell → F) (nr k : Nat) (sizes : List Nat) (shi
         rw [limbCoeffsAux_drop] at this
         rw [← List.map_drop]; exact this
 
-/-- Every non-zero-sized limb cell of `decompose_core` is range-checked with its size. -/
-theorem decompRows_ranges (hR : RangeSound R) (asg : Cell → F) (nr k : Nat) (h0 : 0 < nr)
-    (sizes : List Nat) (shift off : Nat) (hok : sizesOK nr sizes)
-    (h : rowsHold R nr asg k off (decompRows nr sizes shift)) :
-    ∀ j (hj : j < sizes.length), sizes[j] ≠ 0 →
-      ∃ m : Nat, m < 2 ^ sizes[j] ∧ asg (lcLimb nr k off j) = (m : F) := by
-  induction hn : sizes.length using Nat.strongRecOn generalizing sizes shift off with
+theorem decompRows_ranges_aux (hR : RangeSound R) (asg : Cell → F) (nr k : Nat) (h0 : 0 < nr) :
+    ∀ (n : Nat) (sizes : List Nat) (shift off : Nat), sizes.length = n → sizesOK nr sizes →
+      rowsHold R nr asg k off (decompRows nr sizes shift) →
+      ∀ j (hj : j < sizes.length), sizes[j] ≠ 0 →
+        ∃ m : Nat, m < 2 ^ sizes[j] ∧ asg (lcLimb nr k off j) = (m : F) := by
+  intro n
+  induction n using Nat.strongRecOn with
   | _ n ih =>
-    intro j hj hne
+    intro sizes shift off hn hok h j hj hne
     have hchunkOK := sizesOK_head nr sizes hok
     -- the lookups of the first row
     have hfirst : ∀ (row : Row F), row.tag = (sizes.take nr).head? →
@@ -220,10 +221,18 @@ theorem decompRows_ranges (hR : RangeSound R) (asg : Cell → F) (nr k : Nat) (h
         have hj' : j - nr < (sizes.drop nr).length := by simp only [List.length_drop]; omega
         have hget : (sizes.drop nr)[j - nr] = sizes[j] := by
           simp only [List.getElem_drop]; congr 1; omega
-        have := ih _ hlen (sizes.drop nr) (shift + (sizes.take nr).sum) (off + 1)
-          (sizesOK_drop nr sizes hok) hrest rfl (j - nr) hj' (by rw [hget]; exact hne)
+        have := ih _ hlen (sizes.drop nr) (shift + (sizes.take nr).sum) (off + 1) rfl
+          (sizesOK_drop nr sizes hok) hrest (j - nr) hj' (by rw [hget]; exact hne)
         rw [hget, ← lcLimb_shift nr k off (j - nr) h0, show j - nr + nr = j by omega] at this
         exact this
+
+/-- Every non-zero-sized limb cell of `decompose_core` is range-checked with its size. -/
+theorem decompRows_ranges (hR : RangeSound R) (asg : Cell → F) (nr k : Nat) (h0 : 0 < nr)
+    (sizes : List Nat) (shift off : Nat) (hok : sizesOK nr sizes)
+    (h : rowsHold R nr asg k off (decompRows nr sizes shift)) :
+    ∀ j (hj : j < sizes.length), sizes[j] ≠ 0 →
+      ∃ m : Nat, m < 2 ^ sizes[j] ∧ asg (lcLimb nr k off j) = (m : F) :=
+  decompRows_ranges_aux hR asg nr k h0 _ sizes shift off rfl hok h
 
 theorem limbPairs_mem (nr k off : Nat) (sizes : List Nat) (j0 : Nat) (p : Nat × Cell)
     (hp : p ∈ limbPairs nr k off sizes j0) :
@@ -306,5 +315,6 @@ theorem decomposeCore_limbs_sound (hR : RangeSound R) (s : St F) (sizes : List N
   refine ⟨vs, h1, h2, ?_⟩
   rw [hg, h3]
   simp
+  grind
 
 end MidnightZK.C04
